@@ -86,5 +86,49 @@ def main(chk):
             jobs.append((r_family, (mir, name, n, t, 'ignored', chk.seed, to), {}))
             if n <= 2: jobs.append((r_family, (mir, name, n, t, 'dataitem', chk.seed, to), {}))
     chk.add(run_jobs(jobs))
+    hs = [k_ignored(nm, 2, 3) for nm in (('SMA', 'EMA', 'WMA', 'MIN', 'MAX', 'ROC') if q else tuple(FIELD))]
+    chk.add(kani.run_family_set('C10', hs, jobs=8, timeout_s=240 if q else 1800))
     chk.assumptions += ['price getters are pure (a bar is five plain numbers); engine R exact reals', 'bar fields vary independently (not only consistent OHLC)']
-    chk.notes += ['NaN/inf in the ignored fields (engine K part when registered)', 'periods above the bound']
+    chk.notes += [ 'periods above the bound']
+
+
+# ------------------------------------------------------------------------------------------------ engine K
+from vlib import kani, native
+from vlib.kani import KB, KOps
+
+
+def k_ignored(name, n, t):
+    """bar path with EVERY f64 bit pattern (NaN, inf) in the fields the indicator is not documented to read
+    == scalar path on the documented field, bit for bit"""
+    fi = FIELD[name]
+    b = KB('c10_ignored_%s_n%d' % (name.lower(), n), unwind=n + 3,
+           family='K:C10 %s n=%d: bar path (ignored fields any f64 incl. NaN/inf) == scalar path on %s, %d steps' % (name, n, 'ohlcv'[fi], t),
+           bounds=dict(engine='K', indicator=name, n=n, t=t, read_field='every finite f64' if name in ('MIN', 'MAX') else 'symbolic over {1.5, 0.1, 1000.25}', ignored_fields='every f64 bit pattern'))
+    k = KOps(b)
+    k.new('a', name, [n]); k.new('s', name, [n])
+    exact = name in ('MIN', 'MAX')
+    TABX = [1.5, 0.1, 1000.25]
+    for i in range(t):
+        if exact:
+            x = b.anyf('x%d' % i, finite=True); d = ('sym', 'x%d' % i)
+        else:                                      # twin float arithmetic on full-range values does not finish in CBMC: alphabet for the read field
+            x = b.pick('x%d' % i, TABX); k.tables['x%d' % i] = TABX; d = ('pick', 'x%d' % i)
+        pols = []
+        for j, f in enumerate('ohlcv'):
+            pols.append(('var', x, d) if j == fi else 'any')
+        oa = k.feed('a', 'bar', pols, 'b%d' % i)
+        os_ = k.feed('s', 'scalar', ('var', x, d))
+        b.emit('assert!(same(%s, %s), "bar path differs from the scalar path on the documented field");' % (oa, os_))
+
+    def confirm(vals):
+        ops = k.concrete(vals)
+        for prof in ('dev', 'release'):
+            lines, outs = kani.native_ops(ops, prof)
+            xa = [o for op, o in zip(ops, outs) if op[0] == 'feed' and op[1] == 'a']
+            xs = [o for op, o in zip(ops, outs) if op[0] == 'feed' and op[1] == 's']
+            for i, (p_, q_) in enumerate(zip(xa, xs)):
+                if p_ == 'panic' or q_ == 'panic' or not all(kani.same_f(u, v) for u, v in zip(p_, q_)):
+                    return True, lines, '%s step %d: bar path %r, scalar path %r (%s)' % (name, i + 1, p_, q_, prof)
+        return False, lines, 'native paths agree'
+    b.confirm = confirm
+    return b
